@@ -80,7 +80,7 @@ Definition pop2 (b : list N) : list N := rev (skipn 2 (rev b)).
 Fixpoint part_body (fuel : nat) (bd : list N) (rest acc : list N) : option (list N * list N) :=
   match fuel with O => None | S f =>
   match rest with
-  | [] => None                                            (* offset == 0: end of stream without boundary *)
+  | [] => if contains [] bd then Some (acc, []) else None  (* offset == 0: the empty line holds the boundary only when the boundary is empty; else end of stream without boundary *)
   | _ => let (line, rest') := split_line rest in
          if negb (utf8_valid line) then part_body f bd rest' (acc ++ line)
          else if contains line bd then Some (acc, rest')
